@@ -1,7 +1,8 @@
 (* C15 - roman-numeral annotations parse to the right chords at the right times.
    Statements only; proofs in Proofs/RomanProofs.v (the clock, integer ticks, any bar length L > 0, i.e. every
    time signature).  Figures are evaluated against textbook pitch classes by the oracle (DESIGN: narrow Spec). *)
-From ML Require Import Model.Types gen.Tables Model.Roman Proofs.RomanProofs Proofs.RomanFigures.
+From ML Require Import Model.Types gen.Tables Model.Roman Model.KeyText Proofs.RomanProofs Proofs.RomanFigures Proofs.KeyTextProofs.
+From Coq Require Import String Ascii.
 Open Scope Z_scope.
 
 (* once a chord exists, every further token keeps: the chord in progress lasts to the end of its bar, the earlier
@@ -23,6 +24,19 @@ Proof. exact annotation_total. Qed.
    C01/C02, exactly the pitch classes of the standard reading (stacked thirds of the key's scale) and its bass *)
 Theorem C15_diatonic_figures : forall cs key, In cs figure_cases -> 0 <= key < 12 -> figure_ok cs key = true.
 Proof. exact diatonic_figures. Qed.
+
+(* the stated key: a tonic letter followed by any accidentals ('#', 'b', '-'), with or without the colon, reads as that letter's
+   pitch class moved by the accidentals, minor exactly when the letter is lower case - the letter b included *)
+Theorem C15_key_text : forall l acc pc, letter_pc l = Some pc -> accidentals acc = true ->
+  key_of_text (String l acc) = Some (pc + scount "#" acc - scount "b" acc - scount "-" acc, negb (is_upper l)) /\
+  key_of_text (String l (acc ++ ":")) = Some (pc + scount "#" acc - scount "b" acc - scount "-" acc, negb (is_upper l)).
+Proof. exact key_text_reads. Qed.
+
+(* CurrentTonality.init before the repair 82a2afd read "b:" and "bb:" as major keys *)
+Theorem C15_key_text_before_repair_refuted :
+  key_of_text_old "b:" = Some (-1, false) /\ key_of_text_old "bb:" = Some (-2, false) /\
+  key_of_text "b:" = Some (11, true) /\ key_of_text "bb:" = Some (10, true) /\ key_of_text "Bb:" = Some (10, false).
+Proof. exact key_text_old_refuted. Qed.
 
 Example C15_ex_figure : In (true, "VII43"%string, [10; 2; 5; 8], 2%nat) figure_cases /\
   roman_lookup true "VII43" 0 ROMAN_DIATONIC = Some (4, "43"%string, 3, MMaj).      (* in c minor: V43 of E flat major, bass F *)
